@@ -229,7 +229,16 @@ pub fn string_enum(g: &mut G, c: &Ctx) -> Value {
 pub fn typed_enum(g: &mut G, c: &Ctx) -> Value {
     // boolean enums are not generated: typify ignores `enum` on booleans
     // (known finding KF-005)
-    match if c.cfg.wide { g.below(3) } else { [0usize, 2][g.below(2)] } {
+    match if c.cfg.wide { g.below(3) } else { [0usize, 2, 3][g.below(3)] } {
+        3 => {
+            // members beyond i64::MAX under format uint64
+            let pool: [u64; 6] = [0, 1, 255, 9223372036854775807, 9223372036854775808, 18446744073709551615];
+            let mut v: Vec<u64> = pool.iter().cloned().filter(|_| g.chance(1, 2)).collect();
+            if v.is_empty() {
+                v.push(18446744073709551615);
+            }
+            json!({"type": "integer", "format": "uint64", "enum": v})
+        }
         0 => {
             let mut v: Vec<i64> = (0..1 + g.below(4)).map(|_| g.range(-5, 300)).collect();
             v.sort();
@@ -577,7 +586,25 @@ pub fn one_of(g: &mut G, c: &Ctx, depth: usize) -> Value {
     // by construction: struct-like variant payloads of one union are either
     // all closed or all open.
     let mut changed = 0;
+    // the enforced grammar (invalid => rejected) keeps mixed open/closed variants:
+    // KF-002 only over-rejects, which is not that property's direction
+    let skip_uniform = c.cfg.enforced;
     for b in branches.iter_mut() {
+        if skip_uniform {
+            // give each struct-like variant its own closedness
+            if !wrapper_shape && shape != 4 {
+                if let Some(o) = b.as_object_mut() {
+                    if o.get("properties").is_some() {
+                        if g.chance(1, 2) {
+                            o.insert("additionalProperties".into(), json!(false));
+                        } else {
+                            o.remove("additionalProperties");
+                        }
+                    }
+                }
+            }
+            continue;
+        }
         if wrapper_shape {
             // the {tag: payload} / {tag, content} wrapper objects keep the
             // closed form serde/schemars give them; only payloads are aligned
@@ -678,6 +705,15 @@ pub fn schema(g: &mut G, c: &Ctx, depth: usize) -> Value {
 }
 
 fn wide_only(g: &mut G, c: &Ctx, depth: usize) -> Value {
+    // anyOf over (possibly recursive) references: non-exclusive object alternatives become
+    // a struct of flattened optional members
+    if c.refs().len() >= 2 && g.chance(1, 4) {
+        let a = g.pick(c.refs()).clone();
+        let b = g.pick(c.refs()).clone();
+        if a != b {
+            return json!({"anyOf": [{"$ref": format!("{}{}", c.ref_prefix, a)}, {"$ref": format!("{}{}", c.ref_prefix, b)}]});
+        }
+    }
     match g.below(8) {
         0 => json!({"not": leaf(g, c)}),
         1 => json!({"not": {"enum": [g.pick(ENUM_VALUES), g.pick(ENUM_VALUES)]}}),
@@ -855,14 +891,20 @@ pub fn in_faithful(schema: &Value, defs: &[String]) -> bool {
         if vals.is_empty() {
             return false;
         }
-        let allowed = ["type", "enum"];
+        let allowed = ["type", "enum", "format"];
         if !keys.iter().all(|k| allowed.contains(k)) {
             return false;
+        }
+        if let Some(f) = o.get("format") {
+            if base.as_slice() != ["integer"] || f != "uint64" || !vals.iter().all(|v| v.is_u64()) {
+                return false;
+            }
         }
         return match base.as_slice() {
             [] => types.is_empty() && vals.iter().all(|v| v.is_string()),
             ["string"] => vals.iter().all(|v| v.is_string()),
-            ["integer"] => vals.iter().all(|v| v.is_i64() || v.is_u64()),
+            // without format uint64 the widest type typify selects is i64
+            ["integer"] => vals.iter().all(|v| v.is_i64() || (v.is_u64() && o.get("format") == Some(&json!("uint64")))),
             ["number"] => vals.iter().all(|v| v.is_number()),
             _ => false,
         };
@@ -1138,7 +1180,7 @@ pub fn doc_in_enforced(doc: &Value) -> bool {
     fn only_enforced(v: &Value) -> bool {
         match v {
             Value::Object(o) => {
-                if o.contains_key("format") || o.contains_key("minimum") || o.contains_key("uniqueItems") || o.contains_key("anyOf") || o.contains_key("allOf") {
+                if (o.contains_key("format") && !(o.contains_key("enum") && o.get("format") == Some(&json!("uint64")))) || o.contains_key("minimum") || o.contains_key("uniqueItems") || o.contains_key("anyOf") || o.contains_key("allOf") {
                     return false;
                 }
                 if let Some(Value::Array(_)) = o.get("type") {
